@@ -239,6 +239,13 @@ def n_comb(e):
     return 1 + n_comb(e['l']) + (n_comb(e['r']) if e['r'] else 0)
 
 
+def leaf_kinds(e):
+    """Set of leaf kinds below a program."""
+    if not e['l']:
+        return {e['t']}
+    return leaf_kinds(e['l']) | (leaf_kinds(e['r']) if e['r'] else set())
+
+
 def has_nonlinear_leaf(e):
     if not e['l']:
         return e['t'] in ('sq', 'const', 'shift', 'l2sq', 'l1')
